@@ -10,7 +10,7 @@ import exec_common
 def run(c):
     c.rule = ("scripts of engine `exec` in the inter-task-wakeup build: bodies that capture their waker and suspend on a Rust-only event, wakes "
               "from the same task (W<n>, yield), from a second real component task (its body wakes the captured waker inside its own callback), "
-              "from outside any task (K<n>), from destructors during cancellation (g<n>), after exit; interleaved with import calls, "
+              "from outside any task (K<n>), from destructors during cancellation (g<n>), after exit, and in the window between a YIELD answer and the resuming callback (P); interleaved with import calls, "
               "subtask events, EVENT_CANCEL; driver start and block_on; non-trivial = some callback answered WAIT or YIELD; distinct by trace")
     n = 6000 if c.tier == "quick" else 400000
     maxbody = 10 if c.tier == "quick" else 16
